@@ -344,6 +344,36 @@ def value_fields(fx, cg, body, op, depth=0):
     return out
 
 
+def _own_index(body, op, depth=0):
+    """is the operand the first component of the pair find_traf_idx_and_sample_idx returned (followed through copies and
+    field / variant projections only)?"""
+    from mir import op_place
+    pl = op_place(op)
+    projs = []
+    seen = set()
+    while pl is not None and depth < 12:
+        depth += 1
+        projs = list(pl["p"]) + projs
+        l = pl["l"]
+        if l in seen:
+            return False
+        seen.add(l)
+        ds = body.defs().get(l, [])
+        if len(ds) != 1:
+            return False
+        b_, i_, kind, payload = ds[0]
+        if kind == "call":
+            if not (payload["callee"].get("path") or "").endswith("find_traf_idx_and_sample_idx"):
+                return False
+            fields = [p for p in projs if isinstance(p, dict) and "f" in p]
+            # (.. as Some).0 is the pair, its .0 the fragment index
+            return len(fields) == 2 and fields[0]["f"] == "0" and fields[1]["f"] == "0" and all(isinstance(p, dict) and ("f" in p or "downcast" in p) for p in projs)
+        if kind != "assign" or payload["k"] != "use":
+            return False
+        pl = op_place(payload["a"])
+    return False
+
+
 def run(fx, chk, tier):
     chk.rule("R-SIBLING", "the two fragment-attach implementations are the same algorithm up to self.moov <-> moov")
     chk.rule("R-COUNT", "the fragmented sample count accumulates trun.sample_count over every attached track fragment")
@@ -434,6 +464,34 @@ def run(fx, chk, tier):
                     chk.require(base in ("self.trafs", "self.moof_offsets"), "R-INDEX", "%s|use|%s" % (nm, base), "index applied to %s" % base,
                                 "%s applies the fragment index to %s" % (nm, base), site_of(fn, t.get("line")))
         chk.floor("R-INDEX", "uses of the fragment index", users, 5)
+    # ---------------- R-OWNFRAG: a lookup for sample k consults the fragment k lies in, and no other
+    chk.rule("R-OWNFRAG", "bytes, size, timing and composition offset of a sample are computed from the track fragment the sample lies in: every element of self.trafs / self.moof_offsets a lookup touches is the one at the index find_traf_idx_and_sample_idx returned")
+    nown = 0
+    for nm in ("sample_offset", "sample_size", "sample_time", "sample_rendering_offset"):
+        fn = fx.impl_fn("Mp4Track", None, nm)
+        b = body_of(fn) if fn else None
+        if b is None:
+            continue
+        for blk, t in b.calls():
+            if not t["args"]:
+                continue
+            base = b.op_str(t["args"][0])
+            import re as _re
+            if not _re.fullmatch(r"(?:[\w:<>, ]*(?:deref|as_slice|as_ref|borrow|iter)\()*&?\(?\*?self\.(trafs|moof_offsets)\)*", base):
+                continue
+            tail = (t["callee"].get("path") or "").split("::")[-1]
+            if tail in ("is_empty", "len", "deref", "as_slice", "as_ref", "borrow", "capacity"):
+                continue
+            nown += 1
+            key = "%s|%s|%s" % (nm, "trafs" if "trafs" in base else "moof_offsets", tail)
+            if tail in ("index", "get", "get_unchecked") and len(t["args"]) == 2:
+                own = _own_index(b, t["args"][1])
+                chk.require(own, "R-OWNFRAG", key, "element at the index returned by find_traf_idx_and_sample_idx",
+                            "%s reads %s at `%s`, which is not the index of the fragment the sample lies in: the result depends on another fragment (a later one may not have arrived yet)" % (nm, base, b.op_str(t["args"][1])),
+                            site_of(fn, t.get("line")))
+            else:
+                chk.bad("R-OWNFRAG", key, "%s reaches into %s with %s(): the result depends on fragments other than the one the sample lies in" % (nm, base, tail), site_of(fn, t.get("line")))
+    chk.floor("R-OWNFRAG", "fragment element accesses in the lookups", nown, 5)
     # ---------------- R-FRESH: the tracks of a newly opened reader start without fragments
     chk.rule("R-FRESH", "every Mp4Track of a reader being opened is built from its trak box (From<&TrakBox>), never copied from a reader that may already hold fragments")
     from packs_common import reader_entries
